@@ -25,6 +25,9 @@ REQUIRED = [
     "DaeVerif.C19.Props.param_contents_agree",
     "DaeVerif.C19.Props.go_native_endian_is_machine_endian",
     "DaeVerif.C19.Props.conn_consts_now",
+    "DaeVerif.C19.Props.callback_id_is_rule_id",
+    "DaeVerif.C19.Props.map_io_covers_every_map",
+    "DaeVerif.C19.Props.dns_port_read_site",
     "DaeVerif.C19.Props.programs_and_map_kinds_agree",
     "DaeVerif.C19.Props.max_match_set_len_override_consistent",
     "DaeVerif.C19.Props.generated_values_fit_their_storage",
@@ -57,6 +60,24 @@ REQUIRED = [
     "DaeVerif.C19.Props.value_encoding_little_endian_partial",
     "DaeVerif.C19.Props.value_encoding_big_endian_differs",
 ]
+
+
+HOST_E = "le" if sys.byteorder == "little" else "be"
+
+
+def c19_lock(ctx):
+    """C19 is the only check whose Lean inputs (lean/DaeVerif/C19/Gen, the lake products built from them,
+    the c19drv binary with the tables compiled in) depend on VERIF_REPO / the current tree.  verifkit's run
+    lock is per (property, tier, seed, repo); concurrent C19 runs of different tiers / seeds / worktrees
+    would overwrite each other's tables.  One exclusive lock for the whole run, regeneration to last driver call."""
+    import fcntl
+    d = os.path.join(VERIF, ".cache", "locks")
+    os.makedirs(d, exist_ok=True)
+    fh = open(os.path.join(d, "C19-gen-workspace.lock"), "w")
+    t0 = time.time()
+    fcntl.flock(fh, fcntl.LOCK_EX)   # released when the process exits
+    ctx.log.write(f"C19 workspace lock acquired after {time.time() - t0:.1f}s\n")
+    ctx._c19_lock = fh
 
 
 def regenerate(ctx):
@@ -93,9 +114,10 @@ def diagnostics(ctx):
     ops = []
     for k in ("obl", "const", "limit", "map", "mapio", "cclass", "fieldlit", "param", "endian", "wiretype"):
         ops += [f"{k} {i}" for i in range(int(c.get(k, 0)))]
-    ops += ["classify", "handles", "genfiles", "listencheck", "conncheck", "keymodelcheck", "statscheck", "progcheck", "overridecheck", "widthcheck", "archreport", "wirereport"]
+    ops += ["classify", "handles", "genfiles", "listencheck", "conncheck", "keymodelcheck", "statscheck", "progcheck", "overridecheck", "widthcheck", "cbidcheck", "mapiocover", "notes", "archreport", "wirereport"]
     ans = drv(ctx, ops, "c19diag") or []
     n = 0
+    needs_class = []   # closure obligations: something NEW must be classified in Model.lean — not a finding about dae
     grouped = {}   # layout obligations that fail identically on several GOARCHes are one finding
     for op, a in zip(ops, ans):
         if op in ("archreport", "wirereport"):
@@ -105,6 +127,15 @@ def diagnostics(ctx):
         m = re.match(r"BAD (\S+)@(\S+) :: (.*)$", a) if op.startswith("obl ") else None
         if m:
             grouped.setdefault((m.group(1), m.group(3)), []).append((m.group(2), op))
+            continue
+        if a.startswith("BAD") and (op.startswith("cclass ") or op == "classify"):
+            needs_class.append(a[4:])
+            continue
+        if op == "notes":
+            if a != "none":
+                for note in a.split(" ;; "):
+                    ctx.say("NOTE: " + note)
+                ctx.cov["notes"] = a.split(" ;; ")
             continue
         if a.startswith("BAD"):
             ctx.report("kernel and control plane disagree: " + a[4:],
@@ -118,6 +149,7 @@ def diagnostics(ctx):
                    {"kind": "layout", "pairing": pair, "go_layouts": arches, "detail": probs,
                     "replay": "cd /verif && ./check C19 quick   # then: echo '%s' | lean/.lake/build/bin/c19drv" % where[0][1]})
     ctx.cov["table_items_checked"] = n
+    ctx.c19_needs_class = needs_class
     return n
 
 
@@ -260,7 +292,7 @@ def c_side(ctx, gen_out, flow_files):
         if not r["leaves"] or any(l["cls"] == "recd" for l in r["leaves"]):
             continue  # kernel-internal records with opaque members: layout only
         for mode, img in c_images(rng, r, 5 + 8 * scale):
-            ops.append("cdec le %s %s" % (r["name"], img.hex()))
+            ops.append("cdec " + HOST_E + " %s %s" % (r["name"], img.hex()))
             inc("cdec.mode%d" % mode)
     for e in cj["enums"]:
         for c in e["consts"]:
@@ -277,18 +309,18 @@ def c_side(ctx, gen_out, flow_files):
             if w[0] == "flow":
                 _, fam, s, d, sp, dp, proto, gokey, gorev = w
                 cross.append((len(ops), "tuples", (gokey, gorev)))
-                ops.append(f"ctuples le {fam} {s} {d} {sp} {dp} {proto}"); inc("ctuples." + fam)
+                ops.append(f"ctuples " + HOST_E + f" {fam} {s} {d} {sp} {dp} {proto}"); inc("ctuples." + fam)
             elif w[0] in ("dom", "lpmhost"):
                 _, fam, d, gokey = w
                 d16 = d if fam == "v6" else "00000000000000000000ffff" + d
                 s16 = "%032x" % rng.intn(2 ** 128)
                 mac = "00000000000000000000" + "%012x" % rng.intn(2 ** 48)
                 cross.append((len(ops), w[0], gokey))
-                ops.append(f"croute le {s16} {d16} {mac}"); inc("croute." + w[0])
+                ops.append(f"croute " + HOST_E + f" {s16} {d16} {mac}"); inc("croute." + w[0])
             elif w[0] == "matchset":
                 _, view, val, mtype, img = w
                 cross.append((len(ops), "msview", (view, val, mtype)))
-                ops.append("cdec le match_set " + img); inc("cdec.matchset." + view)
+                ops.append("cdec " + HOST_E + " match_set " + img); inc("cdec.matchset." + view)
             elif w[0] == "mackey":
                 _, mac, gokey = w
                 # the kernel callers of route() put the source MAC into bytes 10..15 of mac_be (modelled
@@ -296,15 +328,15 @@ def c_side(ctx, gen_out, flow_files):
                 s16 = "%032x" % rng.intn(2 ** 128)
                 d16 = "%032x" % rng.intn(2 ** 128)
                 cross.append((len(ops), "mackey", gokey))
-                ops.append(f"croute le {s16} {d16} {'00' * 10 + mac}"); inc("croute.mackey")
+                ops.append(f"croute " + HOST_E + f" {s16} {d16} {'00' * 10 + mac}"); inc("croute.mackey")
                 # … and through the three real callers of route() that pack the source MAC themselves
                 for site in ("lan", "wan_tcp", "wan_udp"):
                     cross.append((len(ops), "macsite", gokey))
-                    ops.append(f"cmacsite le {site} {mac}"); inc("cmacsite." + site)
+                    ops.append(f"cmacsite " + HOST_E + f" {site} {mac}"); inc("cmacsite." + site)
             elif w[0] == "portrange":
                 _, a, b, enc = w
                 cross.append((len(ops), "portrange", f"{a}-{b}"))
-                ops.append("creadpr le " + enc); inc("creadpr")
+                ops.append("creadpr " + HOST_E + " " + enc); inc("creadpr")
     # connectivity: every outbound x {tcp, udp, other} x ports x family
     goconn = {}
     gowritten = {}
@@ -335,7 +367,7 @@ def c_side(ctx, gen_out, flow_files):
         idx = [0, 1, 255, 256, 1023, 1024, 65535, 65536, 2 ** 32 - 1][i] if i < 9 else rng.intn(2 ** 32)
         v = idx.to_bytes(4, "little").hex() + "00" * 12
         cross.append((len(ops), "setidx", str(idx)))
-        ops.append("creadidx le " + v); inc("creadidx")
+        ops.append("creadidx " + HOST_E + " " + v); inc("creadidx")
 
     p_ops, p_impl, p_model = (os.path.join(ctx.out, "c19c." + e) for e in ("ops", "impl", "model"))
     open(p_ops, "w").write("\n".join(ops) + "\n")
@@ -453,7 +485,22 @@ def below_floor(dist):
     return out
 
 
+ENV_MARKERS = ("cannot-create-bpf-array-map", "cannot-create-bpf-hash-map", "dump-error:")
+NEEDS_UPDATE_MARKERS = ("route-not-reached", "missing-lookups")
+
+
+class EnvironmentProblem(Exception):
+    pass
+
+
 def diff(ctx, label, ops, impl, model):
+    for l in read_lines(impl):
+        if any(m in l for m in ENV_MARKERS):
+            raise EnvironmentProblem("this environment cannot create/read real BPF maps (needs CAP_BPF/CAP_SYS_ADMIN, "
+                                     "kernel.unprivileged_bpf_disabled, RLIMIT_MEMLOCK): " + l[:200])
+        if any(m in l for m in NEEDS_UPDATE_MARKERS):
+            raise EnvironmentProblem("the native harness no longer reaches route() through the kernel program's callers "
+                                     "(a new scratch map / early exit in tproxy.c?): harness/c19/c19_native.c needs to follow: " + l[:200])
     if not ctx.driver("c19drv", ops, model):
         ctx.proof_failures.append("model driver c19drv failed on " + label)
         return 0
@@ -467,20 +514,27 @@ def diff(ctx, label, ops, impl, model):
     return len(lines)
 
 
-def run(ctx):
+def _run(ctx):
     ctx.c19_distinct = set()
     ctx.trusted += [
         "clang 14 (-target bpf) as the authority on the BPF ABI: sizeof/offsetof/enum/macro values are read back from the constant-folded LLVM IR of a probe translation unit that #includes the unmodified tproxy.c; /verif/harness/c/headers stand in for vmlinux.h/libbpf (UAPI types only)",
-        "go/types + types.SizesFor(\"gc\", GOARCH) as the authority on Go layouts for the 13 release GOARCHes (validated on the host arch against unsafe/reflect in-process); encoding/binary layout = what cilium/ebpf sysenc.Marshal writes",
+        "go/types + types.SizesFor(\"gc\", GOARCH) as the authority on Go layouts for the 13 release GOARCHes (validated on the host arch against unsafe/reflect in-process, and for all 13 GOARCHes by cross-compiling a generated package whose constant index expressions compile only if gc's Sizeof/Alignof/Offsetof equal the tables); encoding/binary layout = what cilium/ebpf sysenc.Marshal writes",
         "bpf2go output (bpf_bpfel.go) cannot be generated offline: the stub-build types of bpf_stub.go stand in for it (translators/fakebpf for the real-build variant)",
         "hand-written pairing table in lean/DaeVerif/C19/Model.lean (which Go type/field mirrors which C record/member; which constants are the same quantity)",
-        "kernel-side key computations are tied by running tproxy.c's own get_tuples / copy_reversed_tuples / wan_outbound_is_alive / route / assign_listener natively (x86-64, little-endian) with stub helpers; big-endian behaviour is covered by the model only",
+        "kernel-side key computations are tied by running tproxy.c's own get_tuples / copy_reversed_tuples / wan_outbound_is_alive / route / assign_listener natively (x86-64, little-endian; incl. the three callers of route() that pack the source MAC) with stub helpers; big-endian behaviour is covered by the model only",
     ]
     ctx.assumptions = [
         "BPF ABI = what clang 14 -target bpf computes; Go layouts = go/types gc sizes (validated on the host GOARCH against reflect/unsafe)",
         "the bpf2go-generated types of the real build are represented by the stub-build types (bpf_stub.go)",
         "key bytes are executed on a little-endian host only; the big-endian cases are covered by the Lean theorems (parametric in byte order), not by execution",
     ]
+    if sys.byteorder != "little":
+        # the native C harness and the in-process Go harness execute on the host; on a big-endian host the
+        # explicitly little-endian encodings of the control plane (finding #11) legitimately differ from
+        # what the kernel code reads, and the comparison streams are not set up for that
+        ctx.say("ENVIRONMENT-UNSUPPORTED: C19's execution streams need a little-endian host (big-endian behaviour is covered by the theorems only)")
+        return 2
+    c19_lock(ctx)
     t0 = time.time()
     gen_out = regenerate(ctx)
     if gen_out is None:
@@ -501,6 +555,14 @@ def run(ctx):
         ctx.proof_failures.append("lake build c19drv failed: " + " | ".join(l for l in out.split("\n") if "error" in l.lower())[:3000])
         return ctx.finish(rule="model does not build against the regenerated tables")
     n_items = diagnostics(ctx)
+    if getattr(ctx, "c19_needs_class", None) and not ctx.violations:
+        pool.shutdown(wait=True)
+        for m in ctx.c19_needs_class:
+            ctx.say("NEEDS-CLASSIFICATION: " + m)
+        ctx.say("NEEDS-CLASSIFICATION (exit 2, not a verdict about dae): a new C constant / Go data type exists that the closure "
+                "theorems every_c_const_classified / every_go_type_classified do not know; extend the tables in "
+                "lean/DaeVerif/C19/Model.lean as the messages say, then re-run")
+        return 2
     ctx.prove(["DaeVerif.C19.Props"], ["DaeVerif.C19.Props"], ["DaeVerif/C19/*.lean", "DaeVerif/C19/Gen/*.lean"],
               extra_targets=["c19drv"])
     ctx.required_theorems(REQUIRED)
@@ -557,3 +619,11 @@ def run(ctx):
                            "distinct_nontrivial = table items + distinct op lines",
                       evaluations=total, distinct=n_items + len(ctx.c19_distinct),
                       checker_cmd="python3 /verif/translators/c19_regen.py && cd /verif/lean && lake build DaeVerif.C19.Props && lake env lean <#audit_namespace DaeVerif.C19.Props>")
+
+
+def run(ctx):
+    try:
+        return _run(ctx)
+    except EnvironmentProblem as e:
+        ctx.say("ENVIRONMENT-UNSUPPORTED / HARNESS-NEEDS-UPDATE (exit 2, not a verdict about dae): " + str(e))
+        return 2
